@@ -379,9 +379,9 @@ open OV.Gen.C15
 extracted from the wrapper's Python body (entry form = ModelProto) gives exactly the model's `protoPath`
 (`protoReplace` for `replace_functions`, whose guard sits in the callee): same content left in the caller's
 object, same return — for every serde, transformation, option tuple and model. -/
-theorem source_proto_entry_is_model (s : Serde P I) (T : Api → Opts W → Rec I → Rec I) (hasF : Rec I → Bool)
+theorem source_proto_entry_is_model (s : Serde P I) (T : Api → Opts W → Rec I → Rec I) (hasF modified : Rec I → Bool)
     (o : Opts W) (f : Api) (M : Rec P) :
-    protoExec s (T f (forward f .proto o)) hasF f.emptyRules (prog f.srcName "proto") M
+    protoExec s (T f (forward f .proto o)) hasF modified f.emptyRules (prog f.srcName "proto") M
       = (match f with
          | .replaceFunctions => protoReplace s T hasF o M
          | f => protoPath s T f o M) := by
@@ -398,9 +398,9 @@ theorem source_proto_entry_is_model (s : Serde P I) (T : Api → Opts W → Rec 
   | _ => rfl
 
 /-- **IR entry of every wrapper, from its source.** -/
-theorem source_ir_entry_is_model (T : Api → Opts W → Rec I → Rec I) (hasF : Rec I → Bool)
+theorem source_ir_entry_is_model (T : Api → Opts W → Rec I → Rec I) (hasF modified : Rec I → Bool)
     (o : Opts W) (f : Api) (m : Rec I) :
-    irExec (T f (forward f .ir o)) hasF f.emptyRules (prog f.srcName "ir") m
+    irExec (T f (forward f .ir o)) hasF modified f.emptyRules (prog f.srcName "ir") m
       = (match f with
          | .replaceFunctions => irReplace T hasF o m
          | f => irPath T f o m) := by
@@ -435,8 +435,8 @@ theorem optimize_old_branch_refuted :
 example : RestoreOK (⟨id, id, 0, fun _ m' => m', fun saved _ => saved⟩ : Serde Nat Nat) := fun _ _ => rfl
 
 /-- `optimizer.inline`, from its source. -/
-theorem source_inline_is_model (hasF : Rec I → Bool) (inl : Rec I → Rec I) (m : Rec I) :
-    irExec inl hasF false (prog "inline" "ir") m = inlinePath hasF inl m := by
+theorem source_inline_is_model (hasF modified : Rec I → Bool) (inl : Rec I → Rec I) (m : Rec I) :
+    irExec inl hasF modified false (prog "inline" "ir") m = inlinePath hasF inl m := by
   simp only [irExec, prog, List.foldl, irStep, inlinePath]
   by_cases h : hasF m = true <;> simp [h]
 
@@ -444,11 +444,11 @@ theorem source_inline_is_model (hasF : Rec I → Bool) (inl : Rec I → Rec I) (
 program extracted from its ModelProto branch yields the serialisation of what the program extracted from its
 ir.Model branch yields on the deserialised input — same option tuple on both sides, every serde, every
 transformation, every model (`replace_functions`: on the models it accepts). -/
-theorem source_proto_eq_ir (s : Serde P I) (T : Api → Opts W → Rec I → Rec I) (hasF : Rec I → Bool)
+theorem source_proto_eq_ir (s : Serde P I) (T : Api → Opts W → Rec I → Rec I) (hasF modified : Rec I → Bool)
     (o : Opts W) (f : Api) (hf : f.wholesale = true) (M : Rec P)
     (hg : f = .replaceFunctions → hasF (s.de M) = false) :
-    (protoExec s (T f (forward f .proto o)) hasF f.emptyRules (prog f.srcName "proto") M).result
-      = s.ser ((irExec (T f (forward f .ir o)) hasF f.emptyRules (prog f.srcName "ir") (s.de M)).result) := by
+    (protoExec s (T f (forward f .proto o)) hasF modified f.emptyRules (prog f.srcName "proto") M).result
+      = s.ser ((irExec (T f (forward f .ir o)) hasF modified f.emptyRules (prog f.srcName "ir") (s.de M)).result) := by
   rw [source_proto_entry_is_model, source_ir_entry_is_model]
   cases f with
   | replaceFunctions =>
@@ -467,15 +467,15 @@ theorem source_proto_eq_ir (s : Serde P I) (T : Api → Opts W → Rec I → Rec
 branch: the in-place variants return no model and leave the result in the caller's object; the others leave
 the caller's object as it was (given a serde that does not write through, resp. a restore that undoes it) —
 including `replace_functions` when it refuses. -/
-theorem source_inplace_or_pure (s : Serde P I) (T : Api → Opts W → Rec I → Rec I) (hasF : Rec I → Bool)
+theorem source_inplace_or_pure (s : Serde P I) (T : Api → Opts W → Rec I → Rec I) (hasF modified : Rec I → Bool)
     (o : Opts W) (f : Api) (M : Rec P) :
     (f.inPlaceOnProto = true →
-      (protoExec s (T f (forward f .proto o)) hasF f.emptyRules (prog f.srcName "proto") M).result
-        = (protoExec s (T f (forward f .proto o)) hasF f.emptyRules (prog f.srcName "proto") M).argAfter ∧
-      (showRet (protoExec s (T f (forward f .proto o)) hasF f.emptyRules (prog f.srcName "proto") M).ret = "none" ∨
-       showRet (protoExec s (T f (forward f .proto o)) hasF f.emptyRules (prog f.srcName "proto") M).ret = "aux")) ∧
+      (protoExec s (T f (forward f .proto o)) hasF modified f.emptyRules (prog f.srcName "proto") M).result
+        = (protoExec s (T f (forward f .proto o)) hasF modified f.emptyRules (prog f.srcName "proto") M).argAfter ∧
+      (showRet (protoExec s (T f (forward f .proto o)) hasF modified f.emptyRules (prog f.srcName "proto") M).ret = "none" ∨
+       showRet (protoExec s (T f (forward f .proto o)) hasF modified f.emptyRules (prog f.srcName "proto") M).ret = "aux")) ∧
     (f.inPlaceOnProto = false → NoAlias s → RestoreOK s →
-      (protoExec s (T f (forward f .proto o)) hasF f.emptyRules (prog f.srcName "proto") M).argAfter = M) := by
+      (protoExec s (T f (forward f .proto o)) hasF modified f.emptyRules (prog f.srcName "proto") M).argAfter = M) := by
   rw [source_proto_entry_is_model]
   constructor
   · intro hf
@@ -501,6 +501,100 @@ theorem source_inplace_or_pure (s : Serde P I) (T : Api → Opts W → Rec I →
     | removeUnusedNodes => simp [Api.inPlaceOnProto] at hf
     | removeUnusedFunctions => simp [Api.inPlaceOnProto] at hf
     | convertVersion => simp [Api.inPlaceOnProto] at hf
+
+/-- **The wrappers' outcome does not depend on what the IR-level implementation reports as `modified`**
+(`FoldConstantsResult.modified`, `PassResult.modified`): every wrapper moves the transformed model back
+*always*, never "only if something changed" — for every serde, transformation, option tuple, model and any two
+behaviours of the flag. -/
+theorem source_outcome_independent_of_modified (s : Serde P I) (T : Api → Opts W → Rec I → Rec I)
+    (hasF mod₁ mod₂ : Rec I → Bool) (o : Opts W) (f : Api) (M : Rec P) :
+    protoExec s (T f (forward f .proto o)) hasF mod₁ f.emptyRules (prog f.srcName "proto") M
+      = protoExec s (T f (forward f .proto o)) hasF mod₂ f.emptyRules (prog f.srcName "proto") M := by
+  rw [source_proto_entry_is_model, source_proto_entry_is_model]
+
+/-- The variant of `fold_constants`' proto branch that copies back only `if result.modified:` (seeded change
+C15-7) agrees with the model whenever the implementation reports a modification … -/
+theorem fold_conditional_copyback_agrees_when_modified (s : Serde P I) (T : Api → Opts W → Rec I → Rec I)
+    (hasF modified : Rec I → Bool) (o : Opts W) (M : Rec P) (h : modified (s.de M) = true) :
+    protoExec s (T .foldConstants (forward .foldConstants .proto o)) hasF modified false foldProgConditional M
+      = protoPath s T .foldConstants o M := by
+  simp [protoExec, foldProgConditional, List.foldl, protoStep, protoPath, h]
+
+/-- … and violates the property as soon as the pass changes the IR without reporting it (real counterpart:
+node-level shape inference / Constant output annotations with nothing folded): the caller's proto stays as it
+was while the IR entry's model moved on. -/
+theorem fold_conditional_copyback_refuted :
+    ¬ (∀ (s : Serde Bool Bool) (T : Api → Opts Unit → Rec Bool → Rec Bool) (hasF modified : Rec Bool → Bool)
+        (o : Opts Unit) (M : Rec Bool),
+        (protoExec s (T .foldConstants (forward .foldConstants .proto o)) hasF modified false
+            foldProgConditional M).result
+          = s.ser ((irPath T .foldConstants o (s.de M)).result)) := by
+  intro h
+  have := congrFun (h ⟨id, fun _ _ => false, false, fun M _ => M, fun M _ => M⟩ (fun _ _ m => m) (fun _ => false)
+    (fun _ => false) (fun _ => ()) (fun _ => true)) Carrier.valueInfo
+  revert this; decide
+
+/-! ### Argument preservation of `rewrite` (with rules) and `replace_functions` without `NoAlias` -/
+
+/-- A pass through which nothing is written into the source proto beyond what already was. -/
+def QuietPass (s : Serde P I) (Ps : String → Opts W → Rec I → Rec I) (p : String) : Prop :=
+  ∀ (o : Opts W) (M : Rec P) (m : Rec I), s.writeBack M (Ps p o m) = s.writeBack M m
+
+/-- Deserialisation alone writes nothing. -/
+def DeQuiet (s : Serde P I) : Prop := ∀ M : Rec P, s.writeBack M (s.de M) = M
+
+/-- **Pipelines of quiet passes write nothing**, whatever their length (induction over the pass list). -/
+theorem quiet_pipeline_writes_nothing (s : Serde P I) (Ps : String → Opts W → Rec I → Rec I)
+    (ps : List String) (o : Opts W) (M : Rec P) (hde : DeQuiet s) (hq : ∀ p ∈ ps, QuietPass s Ps p) :
+    s.writeBack M (pipeline Ps ps o (s.de M)) = M := by
+  suffices h : ∀ (ps : List String) (m : Rec I), (∀ p ∈ ps, QuietPass s Ps p) → s.writeBack M m = M →
+      s.writeBack M (pipeline Ps ps o m) = M from h ps (s.de M) hq (hde M)
+  intro ps
+  induction ps with
+  | nil => intro m _ hm; exact hm
+  | cons p rest ih =>
+    intro m hq hm
+    show s.writeBack M (pipeline Ps rest o (Ps p o m)) = M
+    exact ih (Ps p o m) (fun q hq' => hq q (List.mem_cons_of_mem _ hq'))
+      (by rw [hq p (List.mem_cons_self ..) o M m]; exact hm)
+
+/-- The pipelines `rewrite` and `replace_functions` build in the source contain no renaming pass … -/
+theorem source_rewrite_replace_run_no_renaming_pass :
+    ∀ a ∈ ["rewrite", "replace_functions"], ∀ p ∈ passesOf a, (renamingPasses.contains p) = false := by
+  decide
+
+/-- … while `optimize_ir`'s does (which is why `optimize` needs `_preserve_tensor_names`). -/
+theorem source_optimize_runs_renaming_passes :
+    (passesOf "optimize_ir").any (fun p => renamingPasses.contains p) = true := by decide
+
+/-- **`rewrite(ModelProto, rules)` and `replace_functions(ModelProto, …)` leave their argument unchanged** with
+no global no-aliasing assumption: it suffices that the IR-level transformation is the pass pipeline found in the
+source, that deserialisation writes nothing, and that every pass *outside the named renaming set* is quiet
+(per-pass contracts on onnx_ir / RewritePass, validated per generated case by the tie). -/
+theorem rewrite_and_replace_leave_argument (s : Serde P I) (T : Api → Opts W → Rec I → Rec I)
+    (Ps : String → Opts W → Rec I → Rec I) (o : Opts W) (f : Api)
+    (hf : f = .rewrite false ∨ f = .replaceFunctions)
+    (hT : ∀ o', T f o' = pipeline Ps (passesOf f.srcName) o')
+    (hde : DeQuiet s) (hq : ∀ p, renamingPasses.contains p = false → QuietPass s Ps p) (M : Rec P) :
+    (protoPath s T f o M).argAfter = M := by
+  have key : s.writeBack M (T f (forward f .proto o) (s.de M)) = M := by
+    rw [hT]
+    refine quiet_pipeline_writes_nothing s Ps _ _ M hde (fun p hp => hq p ?_)
+    rcases hf with rfl | rfl
+    · exact source_rewrite_replace_run_no_renaming_pass "rewrite" (by decide) p hp
+    · exact source_rewrite_replace_run_no_renaming_pass "replace_functions" (by decide) p hp
+  rcases hf with rfl | rfl <;> exact key
+
+/-- Non-vacuity: a serde that *does* write through (on renaming passes) still satisfies the hypotheses. -/
+example : ∃ (s : Serde Nat Nat) (Ps : String → Opts Unit → Rec Nat → Rec Nat),
+    DeQuiet s ∧ (∀ p, renamingPasses.contains p = false → QuietPass s Ps p) ∧ ¬ NoAlias s :=
+  ⟨⟨fun M c => if c = .otherModel then 0 else M c, id, 0,
+     fun M m' c => if m' .otherModel = 1 then 7 else M c, fun M _ => M⟩,
+   fun p _ m c => if renamingPasses.contains p = true then (if c = .otherModel then 1 else m c) else m c,
+   by intro M; funext c; simp,
+   by intro p hp o M m; funext c; have hp' : ¬ p ∈ renamingPasses := by simpa using hp
+      simp [hp'],
+   by intro h; have := congrFun (h (fun _ => 0) (fun _ => 1)) Carrier.nodes; revert this; decide⟩
 
 /-- The translator understood every statement of every wrapper (no `unknown`). -/
 theorem source_fully_recognised :
